@@ -73,7 +73,7 @@ def parse_filter_dict(filter_dict: Dict[str, Any]) -> List[FilterExpression]:
             else:
                 op = _parse_op(op_str)
                 if op in (FilterOp.IN, FilterOp.NOT_IN) and not isinstance(
-                    value, (list, tuple, set, frozenset, str, bytes, dict)
+                    value, (list, tuple, set, frozenset, str, bytes)
                 ) and hasattr(value, "__iter__"):
                     # A one-shot iterable (generator, iterator, dict view) is
                     # walked more than once: per file while pruning and again
